@@ -257,4 +257,152 @@ def Ellipsoid.new (a b c : α) (center : V3 α) : Except String (Ell3 α) :=
   else .error "ValueError:a"
 
 end
+
+/-! ### allocation model: which stored array lives in which block of memory
+
+NumPy arrays are objects over a block of memory. `np.array(x, dtype=…)` always allocates a new block;
+`np.asarray(x, dtype=…)` returns `x` ITSELF when `x` already is an ndarray of the requested element type (whatever its
+layout: contiguous, strided view, read-only), and allocates otherwise (list, tuple, other dtype); arithmetic, `np.cross`,
+`np.hstack`, fancy indexing allocate; basic slicing / iterating over the rows of a 2-D array yields VIEWS into the same
+block; `x /= s` writes into the block of `x`. `np.shares_memory(a, b)` ⇔ same block (all views here are overlapping
+rows of one array).
+
+The constructors are modelled as allocation traces over `Alloc` (next unused block, blocks written in place), the
+conversion used at each site being a parameter (`Sites`) so that the statement "the constructor stores/modifies no caller
+array" can be proved for the table of /repo (`repoSites`) AND shown to fail for the `np.asarray` variants
+(`Props/C15.lean`, `ctor_fresh_arrays`, `*_asarray_*_aliases`).  The traces are those of a constructor that runs to
+its end; a constructor that raises has executed a prefix (fewer writes, nothing stored). -/
+
+/-- what the caller passes where an array is expected -/
+inductive ArgKind where
+  /-- list / tuple (nested) of numbers: no ndarray involved -/
+  | seq
+  /-- an ndarray (any layout, writable or not) with element type float64 (`f64`) or another one, in block `blk` -/
+  | nd (f64 : Bool) (blk : Nat)
+deriving DecidableEq, Repr
+
+/-- the `faces` argument of `Polyhedron` -/
+inductive FacesKind where
+  /-- list / tuple of lists / tuples of ints -/
+  | nested
+  /-- list / tuple of ndarrays, one block each -/
+  | arrays (blks : List Nat)
+  /-- one `(F, k)` ndarray: iterating yields `F` row views into its block -/
+  | array2d (blk : Nat)
+deriving Repr
+
+inductive Conv where
+  | array      -- `np.array(x, …)`   : always a copy
+  | asarray    -- `np.asarray(x, …)` : a copy only if it has to convert
+deriving DecidableEq, Repr
+
+structure Alloc where
+  /-- first unused block number (every block handed out so far is smaller) -/
+  next : Nat
+  /-- blocks written in place so far -/
+  writes : List Nat
+deriving Repr
+
+def Alloc.fresh (s : Alloc) : Nat × Alloc := (s.next, { s with next := s.next + 1 })
+def Alloc.write (s : Alloc) (b : Nat) : Alloc := { s with writes := b :: s.writes }
+
+/-- `np.array(x[, dtype=float64])` / `np.asarray(x[, dtype=float64])` -/
+def convert (c : Conv) (wantF64 : Bool) (a : ArgKind) (s : Alloc) : Nat × Alloc :=
+  match c, a with
+  | .asarray, .nd f64 blk => if !wantF64 || f64 then (blk, s) else s.fresh
+  | _, _ => s.fresh
+
+/-- `n` fresh blocks -/
+def Alloc.freshN : Nat → Alloc → List Nat × Alloc
+  | 0, s => ([], s)
+  | n + 1, s => let (b, s1) := s.fresh; let (bs, s2) := Alloc.freshN n s1; (b :: bs, s2)
+
+inductive Curved where
+  | circle | sphere | ellipse | ellipsoid
+deriving DecidableEq, Repr
+
+/-- the conversion used at each site of the constructors -/
+structure Sites where
+  /-- polygon.py `vertices = np.array(vertices, dtype=np.float64)` -/
+  polygonVertices : Conv
+  /-- polygon.py `norm_normal = np.array(normal, dtype=np.float64)` -/
+  polygonNormal : Conv
+  /-- polyhedron.py `self._vertices = np.array(vertices, dtype=np.float64)` -/
+  polyhedronVertices : Conv
+  /-- convex_polyhedron.py `self._vertices = np.array(vertices, dtype=np.float64)` -/
+  convexPolyhedronVertices : Conv
+  /-- circle.py / sphere.py / ellipse.py / ellipsoid.py `self._centroid = np.array(value)` (no dtype) -/
+  centre : Curved → Conv
+  /-- polyhedron.py `self._faces = [face for face in faces]`: `false` = the face OBJECTS are kept (as coded),
+      `true` = each face would be copied -/
+  copyFaces : Bool
+
+/-- /repo as it is -/
+def repoSites : Sites := ⟨.array, .array, .array, .array, fun _ => .array, false⟩
+
+/-- blocks of the arrays a polygon keeps -/
+structure PolyBlocks where
+  vertices : Nat
+  normal : Nat
+deriving Repr
+
+/-- `Polygon.__init__` (allocation trace) -/
+def Polygon.alloc (σ : Sites) (ncols : Nat) (verts : ArgKind) (normal : Option ArgKind) (s : Alloc) :
+    PolyBlocks × Alloc :=
+  -- vertices = np.array(vertices, dtype=np.float64)
+  let (b0, s1) := convert σ.polygonVertices true verts s
+  -- self._vertices = np.hstack((vertices, zeros))   |   self._vertices = vertices
+  let (bv, s2) := if ncols = 2 then s1.fresh else (b0, s1)
+  -- computed_normal = np.cross(...); computed_normal /= np.linalg.norm(computed_normal)
+  let (bc, s3) := s2.fresh
+  let s4 := s3.write bc
+  match normal with
+  | none => (⟨bv, bc⟩, s4)                     -- self._normal = computed_normal
+  | some na =>
+    -- norm_normal = np.array(normal, dtype=np.float64); norm_normal /= np.linalg.norm(normal)
+    let (bn, s5) := convert σ.polygonNormal true na s4
+    (⟨bv, bn⟩, s5.write bn)                     -- self._normal = norm_normal
+
+/-- `ConvexPolygon.__init__`: `Polygon.__init__`, then `self._vertices = self._vertices[vert_order, :]` (fancy
+indexing: a new array). `ConvexSpheropolygon.__init__` keeps exactly this polygon (`self._polygon`) and a float. -/
+def ConvexPolygon.alloc (σ : Sites) (ncols : Nat) (verts : ArgKind) (normal : Option ArgKind) (s : Alloc) :
+    PolyBlocks × Alloc :=
+  let (p, s1) := Polygon.alloc σ ncols verts normal s
+  let (bv, s2) := s1.fresh
+  (⟨bv, p.normal⟩, s2)
+
+structure PolyhBlocks where
+  vertices : Nat
+  /-- one entry per stored face that is an ndarray (nested lists are not arrays) -/
+  faces : List Nat
+  equations : Nat
+deriving Repr
+
+/-- `Polyhedron.__init__(vertices, faces)`: `_vertices` copied, `_faces = [face for face in faces]`,
+`_equations = np.empty(...)` filled in place -/
+def Polyhedron.alloc (σ : Sites) (verts : ArgKind) (faces : FacesKind) (nfaces : Nat) (s : Alloc) :
+    PolyhBlocks × Alloc :=
+  let (bv, s1) := convert σ.polyhedronVertices true verts s
+  let (bf, s2) : List Nat × Alloc :=
+    if σ.copyFaces then Alloc.freshN nfaces s1
+    else match faces with
+      | .nested => ([], s1)
+      | .arrays blks => (blks, s1)
+      | .array2d blk => (List.replicate nfaces blk, s1)
+  let (be, s3) := s2.fresh
+  (⟨bv, bf, be⟩, s3.write be)
+
+/-- `ConvexPolyhedron.__init__(vertices)`: `_vertices` copied; faces and equations are built from Qhull's result
+(new arrays). `ConvexSpheropolyhedron.__init__` keeps exactly this polyhedron and a float. -/
+def ConvexPolyhedron.alloc (σ : Sites) (verts : ArgKind) (nfaces : Nat) (s : Alloc) : PolyhBlocks × Alloc :=
+  let (bv, s1) := convert σ.convexPolyhedronVertices true verts s
+  let (bf, s2) := Alloc.freshN nfaces s1
+  let (be, s3) := s2.fresh
+  (⟨bv, bf, be⟩, s3.write be)
+
+/-- `Circle/Sphere/Ellipse/Ellipsoid.__init__`: floats, then `self._centroid = np.array(value)`; the default centre
+`(0, 0, 0)` is a tuple (`ArgKind.seq`) -/
+def Curved.alloc (σ : Sites) (cls : Curved) (centre : ArgKind) (s : Alloc) : Nat × Alloc :=
+  convert (σ.centre cls) false centre s
+
 end C15
